@@ -9,6 +9,7 @@ import (
 	"strings"
 
 	"bmverif/internal/core"
+	"golang.org/x/tools/go/packages"
 	"golang.org/x/tools/go/ssa"
 )
 
@@ -16,7 +17,7 @@ func init() {
 	register("C11", checkC11)
 	describe("C11", Meta{
 		Technique: "struct-to-JSON-mirror field coverage computed from the SSA store/load sets of Jsoner/Dejsoner (persistent fields are derived from who stores them, not listed), reply-style path counting for name-resolved slots, and effect confinement of the load path (no hidden package-level state)",
-		Claim:     "Decides structural clauses of C11: (a) every field of Machine/Bondmachine (through embedding) that some front-end or API stores — i.e. not only written inside the HDL-generation call tree or by simulator code — is read by Jsoner and written by Dejsoner, and every field of the JSON mirror is written by Jsoner and read by Dejsoner; (c) every slot of a name-resolved slice is assigned on every non-failing path of Dejsoner; (d) Jsoner/Dejsoner and their callees write no package-level state other than through the registry constructors (EventuallyCreate*), so a load is a function of the JSON and the registries. (d) ORDER: Jsoner/Dejsoner and what they call do not sort, compact or reverse any list (positions in the lists are referred to by other lists and by the generated HDL). Necessary conditions for a lossless round trip; value fidelity, byte-identical re-save and regenerated Verilog equality are not decided.",
+		Claim:     "Decides structural clauses of C11: (a) every field of Machine/Bondmachine (through embedding) that some front-end or API stores — i.e. not only written inside the HDL-generation call tree or by simulator code — is read by Jsoner and written by Dejsoner, and every field of the JSON mirror is written by Jsoner and read by Dejsoner; (c) every slot of a name-resolved slice is assigned on every non-failing path of Dejsoner; (d) Jsoner/Dejsoner and their callees write no package-level state other than through the registry constructors (EventuallyCreate*), so a load is a function of the JSON and the registries. (e) the loader relates an index to the list it indexes (INDEXKIND on Jsoner/Dejsoner, with the JSON mirror's lists typed like the live ones); (d) ORDER: Jsoner/Dejsoner and what they call do not sort, compact or reverse any list (positions in the lists are referred to by other lists and by the generated HDL). Necessary conditions for a lossless round trip; value fidelity, byte-identical re-save and regenerated Verilog equality are not decided.",
 		Note:      "Call-graph reachability (CHA) decides which stores are 'derived' (HDL generation / VM code). Aliasing of slices between the saved form and the live machine is reported as information only.",
 		DesignRef: "DESIGN.md §2 C11",
 	})
@@ -358,6 +359,13 @@ func checkC11(r *core.Run) {
 	}
 	r.Count("live_fields", nLive)
 	r.Count("mirror_fields", nMirror)
+
+	// (e) index spaces on the save/load path: a loader that validates or renumbers what it reads must
+	// relate an index to the list it indexes (a shared-object id to Shared_objects, not to Shared_links)
+	e := newIKEngine(r, prog, "C11")
+	e.run([]string{"pkg/bondmachine", "pkg/procbuilder"}, func(pk *packages.Package, fd *ast.FuncDecl) bool {
+		return fd.Name.Name == "Jsoner" || fd.Name.Name == "Dejsoner"
+	})
 }
 
 // c11Slots: in Dejsoner, a loop `for i, name := range mirror.F { ... result.G[i] = x ... }` whose
@@ -483,7 +491,6 @@ func c11Slots(r *core.Run, prog *core.Program, p c11Pair) {
 		r.Count("name_resolved_slot_loops", n)
 	})
 }
-
 
 // c11Order (C11/ORDER): every persisted list of a machine is an index space (processors, domains,
 // shared objects, links, opcodes: other lists refer to its elements by position, and the position of a
